@@ -38,11 +38,16 @@ Agrees(x, g) ==
 \* call has been flagged already); the call cannot be replayed, it is flagged too and skipped
 Unknown(e) == \/ e.op \in {"Add", "Op", "Open"} /\ e.p > Len(store)
               \/ e.op = "Open" /\ e.p >= 1 /\ e.p <= Len(store) /\ store[e.p].hier # 1
+              \/ e.op = "Range" /\ (e.p > Len(iters) \/ iters[e.p].root = 0)
 
 Step ==
   /\ l <= Len(Trace)
   /\ LET e == Trace[l] IN
-     IF Unknown(e) THEN UNCHANGED avars /\ bad' = bad \cup {<<l, "P">>}
+     IF Unknown(e) THEN
+        \* (an iterator over an unknown node still takes its place in the program's list of iterators)
+        /\ iters' = IF e.op = "Open" THEN Append(iters, [root |-> 0, snap |-> <<>>]) ELSE iters
+        /\ UNCHANGED <<store, idx, hist, res, exp>>
+        /\ bad' = bad \cup {<<l, "P">>}
      ELSE
      /\ CASE e.op = "reset"   -> store' = <<>> /\ idx' = 0 /\ hist' = <<>> /\ res' = None /\ exp' = None /\ iters' = <<>>   \* a new history
           [] e.op = "NewRoot" -> NewRoot(e.name)
